@@ -469,6 +469,8 @@ class Interp:
         v = self.eval(test, env, fi)
         if isinstance(v, NoneV):
             return False
+        if isinstance(v, Hyper) and v.name in ("True", "False"):
+            return v.name == "True"  # a local holding the result of a decided test
         return None
 
     def as_factor(self, v):
@@ -545,6 +547,11 @@ class Interp:
             return Opaque(getattr(v, "taint", True), src_of(e))
         if isinstance(e, ast.BinOp):
             return self.binop(e.op, self.eval(e.left, env, fi), self.eval(e.right, env, fi), e, fi)
+        if isinstance(e, (ast.Compare, ast.BoolOp)) or (isinstance(e, ast.UnaryOp) and isinstance(e.op, ast.Not)):
+            # `weighted = sample_weight is not None`: a test decided by the configuration is a constant
+            t_ = self.truth(e, env, fi) if not (isinstance(e, ast.Compare) and not isinstance(e.ops[0], (ast.Is, ast.IsNot))) else None
+            if t_ is not None:
+                return Hyper(str(t_))
         if isinstance(e, ast.Compare) and len(e.ops) == 1:
             l = self.eval(e.left, env, fi)
             r = self.eval(e.comparators[0], env, fi)
